@@ -30,6 +30,9 @@ def shards(tier, seed):
     m = 16 if tier == "quick" else 48
     n = 2500 if tier == "quick" else 12000
     out = [{"part": k, "n": n} for k in range(m)]
+    # the same round trips after a user has registered state types of their own (for a built-in type that shares the
+    # 'generic' state type with others, and for a class of their own)
+    out += [{"part": 100 + k, "n": n // 2, "reregister": True} for k in range(2 if tier == "quick" else 6)]
     if tier == "thorough":
         out.append({"kind": "under_tests", "part": 0, "n": 0})
     return out
@@ -141,8 +144,65 @@ def frame(rnd, features):
     return df
 
 
+def user_state_types():
+    """two perfectly legal user-defined state types (what register_state_type is for)"""
+    import liquer.state_types as ST
+
+    class IntegerStateType(ST.StateType):
+        def identifier(self):
+            return "integer"
+
+        def default_extension(self):
+            return "txt"
+
+        def default_filename(self):
+            return "integer.txt"
+
+        def default_mimetype(self):
+            return "text/plain"
+
+        def is_type_of(self, data):
+            return isinstance(data, int)
+
+        def as_bytes(self, data, extension=None):
+            return str(data).encode("ascii"), "text/plain"
+
+        def from_bytes(self, b, extension=None):
+            return int(b.decode("ascii"))
+
+        def copy(self, data):
+            return data
+
+        def data_characteristics(self, data):
+            return dict(description="integer")
+
+    class CustomStateType(IntegerStateType):
+        def identifier(self):
+            return "custom"
+
+        def is_type_of(self, data):
+            return isinstance(data, Custom)
+
+        def as_bytes(self, data, extension=None):
+            return repr(data.a).encode("ascii"), "text/plain"
+
+        def from_bytes(self, b, extension=None):
+            import ast
+
+            return Custom(ast.literal_eval(b.decode("ascii")))
+
+        def copy(self, data):
+            return Custom(data.a)
+
+    return {int: IntegerStateType(), Custom: CustomStateType()}
+
+
 def gen_value(rnd, tid, ext, features):
     """value from the documented domain of (type identifier, extension)"""
+    if tid == "integer":
+        return rnd.choice([0, 1, -7, 2 ** 70, rnd.randrange(10 ** 6)])
+    if tid == "custom":
+        return Custom(rnd.choice([1, "s", 2.5]))
     if tid == "bytes":
         return rnd.choice([b"", b"\x00\xff\xfe", b"plain", bytes(range(256)), b"x" * 70000])
     if tid == "text":
@@ -338,8 +398,17 @@ def run_shard(spec):
     features = set()
     mon = Monitor("raise")
     install_contracts(mon, features)
+    rereg = bool(spec.get("reregister") or (spec.get("replay") or {}).get("reregister"))
+    if rereg:
+        for ty, st in user_state_types().items():
+            ST.register_state_type(ty, st)
     pairs, types = probe_pairs()
     pairs = [p for p in pairs if p not in LOSSY]
+    if rereg:
+        for st in user_state_types().values():
+            types[st.identifier()] = ST.state_types_registry().get(st.identifier())
+            pairs.append((st.identifier(), None))
+        counters_rereg = True
     violations = {}
     counters = {}
     nontrivial = set()
@@ -364,7 +433,9 @@ def run_shard(spec):
         counters["pair.%s.%s" % (tid, ext or "default")] = counters.get("pair.%s.%s" % (tid, ext or "default"), 0) + 1
         if isinstance(v, (list, dict, tuple, set)) or not isinstance(v, (int, type(None))):
             nontrivial.add(hashlib.sha1(repr((tid, ext, vseed)).encode()).hexdigest()[:12])
-        w = {"tid": tid, "ext": ext, "vseed": vseed}
+        w = {"tid": tid, "ext": ext, "vseed": vseed, "reregister": rereg}
+        if rereg:
+            counters["after_user_registration"] = counters.get("after_user_registration", 0) + 1
         is_default = ext is None or ext == t.default_extension()
         try:
             ST.encode_state_data(v, extension=ext)
@@ -417,7 +488,8 @@ def finalize(m, tier, seed):
     inc = []
     for k in ("contract_evals.encode_state_data.lossless", "contract_evals.copy_state_data.independent",
               "pair.dataframe.parquet", "pair.dataframe.feather", "pair.dictionary.djson", "pair.dictionary.json",
-              "pair.pickle.default", "pair.text.default", "pair.bytes.default", "pair.generic.default",
+              "pair.pickle.default", "pair.text.default", "pair.bytes.default", "pair.generic.default", "after_user_registration",
+              "pair.integer.default", "pair.custom.default",
               "feature.frame.non_default_index", "feature.frame.empty"):
         if not m["counters"].get(k):
             inc.append("coverage class %s empty" % k)
